@@ -91,7 +91,8 @@ def TypeKept (cfg : Cfg) (t t' : TypeO) : Prop :=
                | .interface => if cfg.extIfaceRtype then t.rtype else none
                | .union => if cfg.extUnionRtype then t.rtype else none
                | _ => t.rtype) ∧
-  ∃ added, t'.values = t.values ++ added
+  (∃ added, t'.values = t.values ++ added) ∧
+  t'.cls = (if (t.kind == Kind.scalar || t.kind == Kind.enum) && cfg.extLeafCopied then t.cls else none)
 
 theorem read_write_same (h : Heap) (a : Addr) (o : Obj) (ha : a < h.size) : (h.write a o).read a = some o := by
   simp only [Heap.write, Heap.read, Heap.size] at *
@@ -107,7 +108,7 @@ theorem extendKidsX (W : Addr → Prop) (cfg : Cfg) (ext : Ext) (N Nin : List (S
   · exact FrameX.refl _ h
 
 theorem rebuilt_kept (cfg : Cfg) (ext : Ext) (N : List (String × Addr)) (t : TypeO) (fs : List Addr) :
-    TypeKept cfg t (rebuiltType cfg ext N t fs) := ⟨rfl, rfl, rfl, rfl, rfl, rfl, _, rfl⟩
+    TypeKept cfg t (rebuiltType cfg ext N t fs) := ⟨rfl, rfl, rfl, rfl, rfl, rfl, ⟨_, rfl⟩, rfl⟩
 
 theorem extendOne_spec (cfg : Cfg) (ext : Ext) (N Nin : List (String × Addr)) (h : Heap) (t : TypeO) (na : Addr) (hna : na < h.size) :
     FrameX (fun x => x = na) h (extendOne cfg ext N Nin h t na) ∧
